@@ -346,6 +346,8 @@ class SimStdout:
         self.buf = bytearray()
         self.sink = bytearray()        # everything delivered (also when not a tty)
         self.write_log = []            # text of every write() call (truncated), in order
+        self.call_log = []             # "w" / "f" in call order
+        self.keep_full = False
 
     # text-IO protocol
     def isatty(self):
@@ -371,12 +373,18 @@ class SimStdout:
         if not isinstance(s, str):
             raise TypeError("write() argument must be str, not %s" % type(s).__name__)
         data = s.encode("utf-8")
-        self.write_log.append(s if len(s) <= 24 else s[:24])
+        self.write_log.append(s if (len(s) <= 24 or self.keep_full) else s[:24])
+        self.call_log.append("w")
         f = self.k.seam("out.write", len(data))
         if f is not None:  # partial delivery
             return self._partial(f, data)
         if self.buffered:
             self.buf.extend(data)
+            if self._isatty and ("\n" in s or "\r" in s):
+                # a tty stdout is line-buffered (TextIOWrapper line_buffering=True)
+                pend = bytes(self.buf)
+                self.buf.clear()
+                self._deliver(pend)
         else:
             if self.buf:
                 pend = bytes(self.buf)
@@ -398,10 +406,13 @@ class SimStdout:
         self._deliver(whole[:n])
         if self.retain:
             self.buf.extend(whole[n:])
+            if whole[n:]:
+                self.k.ctx.probe("retained_remainder_delivered_later")
         self.k.ctx.log("partial-write", cut, len(data), self.retain)
         raise build_exc(f.get("exc", "KeyboardInterrupt"))
 
     def flush(self):
+        self.call_log.append("f")
         f = self.k.seam("out.flush", len(self.buf))
         if f is not None:
             whole = bytes(self.buf)
